@@ -51,7 +51,8 @@ PROPERTIES = {
         "level": "fault_enumeration",
         "wall_cap": {"quick": 150.0, "thorough": 3000.0},
         "rule": "for each pool (query, backend, wire, output-directory state in {empty, holds another query's package, "
-                "holds a package unpacked without mode bits, emptied after a kept executor wrote into it, "
+                "holds a package unpacked without mode bits, emptied after a kept executor wrote into it, holds a directory / "
+                "symlink to a directory named like a package file, "
                 "shared with a kept executor of another backend}) the write phase is run once fault-free counting its "
                 "file-system calls (open/write/close/chmod), then once per call index with that call raising OSError, followed "
                 "by a fault-free retry with the same executor into the same directory; whenever translation returns, the package must be "
@@ -90,7 +91,7 @@ def _c02_space(tier):
         for name, steps in pools.QUERIES[b]:
             if "_bad_" in name:
                 continue
-            for stale in (False, True, "kept_cross", "unpacked", "kept_cleaned"):
+            for stale in (False, True, "kept_cross", "unpacked", "kept_cleaned", "dir_in_the_way", "dirlink_in_the_way"):
                 wires = ("ast", "qastle") if tier == "thorough" else ("ast",)
                 for wire in wires:
                     items.append((b, name, stale, wire))
@@ -382,6 +383,16 @@ def _c02_child(case, k, ref):
             xlate.translate(exe, case["query"], d)
             e0 = xlate.executor_class(case["stale_query"]["backend"])()
             xlate.translate(e0, case["stale_query"], d)
+        elif case["stale"] in ("dir_in_the_way", "dirlink_in_the_way"):
+            # the output directory already holds a sub-directory (or a symlink to one) named like a package file
+            names = sorted(ref["all_filenames"]) if ref and ref.get("outcome") == "ok" else ["runner.sh"]
+            victim = names[case["sel_seed"] % len(names)]
+            if case["stale"] == "dir_in_the_way":
+                os.makedirs(os.path.join(d, victim))
+            else:
+                tgt = d + "-shared"
+                os.makedirs(tgt, exist_ok=True)
+                os.symlink(tgt, os.path.join(d, victim))
         elif case["stale"] == "kept_cleaned":
             # a kept executor translated into D before; D was emptied (rm -rf; mkdir) and is used again
             exe = xlate.executor_class(case["backend"])()
@@ -442,6 +453,7 @@ def _c02_child(case, k, ref):
         return out
     finally:
         shutil.rmtree(d, ignore_errors=True)
+        shutil.rmtree(d + "-shared", ignore_errors=True)
 
 
 def _c02_execute(case):
@@ -455,6 +467,11 @@ def _c02_execute(case):
     base = isolate.call_isolated(_c02_child, (case, None, ref), timeout=60)
     log.append({"k": None, "stale": case["stale"], "outcome": base["outcome"], "calls": len(base["calls"]), "problems": base["problems"]})
     if base["outcome"] != "ok":
+        if case["stale"] in ("dir_in_the_way", "dirlink_in_the_way") and ref.get("outcome") == "ok":
+            # raising is the correct reaction to a directory in the way of a package file
+            bump("reach:raised_because_directory_in_the_way")
+            return {"log": log, "violations": [], "stats": stats, "states": [],
+                    "nontrivial": [fingerprint([case["query"]["name"], case["stale"]])]}
         bump("skipped_query_does_not_translate")
         return {"log": log, "violations": [], "stats": stats, "states": [], "nontrivial": []}
     for p in base["problems"]:
